@@ -45,9 +45,8 @@ GUARDS = {
     204: ('g_items_charset', 'finding', 'C13-NUM-UNDERSCORE'),
     205: ('g_id_drop', 'finding', 'C13-ID-DROP-TEXT'),
     206: ('g_id_choice', 'class', None),
-    207: ('g_no_date', 'class', None),
-    208: ('g_names_unique', 'class', None),
-    209: ('g_filters_valid', 'class', None),
+    207: ('g_names_unique', 'class', None),     # (round 4: the class conjunct g_no_date is gone, DATE columns are in the theorem)
+    208: ('g_filters_valid', 'class', None),
     224: ('g_pk_id_kept', 'class', None),
 }
 
@@ -108,6 +107,8 @@ def id_tokens(rng, nrows):
 
 PLAIN_NAMES = ['ID', 'TIME', 'DV', 'AMT', 'WGT', 'APGR', 'L1', 'DVID', 'X1', 'BLQ', 'CRCL', 'MDV', 'EVID']
 SYN_NONRES = ['CONC', 'TAD', 'DOSE', 'SUBJ', 'W8']
+DATE_NAMES = ['DATE', 'DATE', 'DAT1', 'DAT2', 'DAT3']
+DATE_TOKENS = ['1/1/2020', '10-3-99', '2020-01-02', '3', '1.5', '12/31/1999', '10/3', '.', '', '1', '2020.2.3', '0']
 DELIMS = [',', ',', ',', ' ', ' ', '\t', ' , ', ', ', ' ,', '  ', '\t ', '   ', ',  ']
 FILTER_OPS = ['.EQN.', '.EQ.', '==', '=', '.NEN.', '.NE.', '/=', '.LT.', '<', '.GT.', '>', '.LE.', '<=', '.GE.', '>=', None]
 
@@ -142,6 +143,11 @@ def gen_columns(rng):
             cols.append((f'{nm}={syn.pop()}' if nm not in ('ID', 'DV', 'TIME', 'AMT', 'L1', 'MDV', 'EVID') else nm, nm, False))
         else:
             cols.append((nm, nm, False))
+    if rng.random() < 0.18 and len(cols) >= 2:      # a DATE / DAT1-3 column (round 4), usually dropped as NM-TRAN asks; it stays text
+        j = rng.randrange(1, len(cols))
+        d = rng.choice(DATE_NAMES)
+        r = rng.random()
+        cols[j] = ((f'{d}=DROP' if r < 0.45 else f'DROP={d}', d, True) if r < 0.65 else (d, d, False))
     if rng.random() < 0.02 and len(cols) >= 2 and not cols[0][2]:     # duplicate kept name: KeyError 'not unique'
         cols.append((cols[0][0], cols[0][1], cols[0][2]))     # (duplicate DROPPED names make pandas erratic: not generated)
     return cols
@@ -180,11 +186,13 @@ def gen_spec(rng, malformed=False):
                                   '1', '2', '', '.'])
                 if cols[j][1] in ('ID', 'L1') and rng.random() < 0.7:
                     tok = str(rng.choice([1, 2, 3, 10]))
+            elif j < k and cols[j][1] in DATE_NAMES:
+                tok = rng.choice(DATE_TOKENS)
             elif j in idcols and idcols.index(j) == 0:
                 tok = ids[i]
             elif j < k and cols[j][1] in ('ID', 'L1', 'DVID'):          # int32 columns: keep |value| < 2**31
                 tok = rng.choice(['1', '2', '3', '2.5', '1e1', '10', '.', '-1', '2-1', '1d2', '+', '0'])
-            elif j < k and cols[j][1] == 'TIME' and rng.random() < 0.08:
+            elif j < k and cols[j][1] == 'TIME' and rng.random() < (0.12 if any(c[1] in DATE_NAMES for c in cols) else 0.08):
                 tok = rng.choice(['2:30', '12:00', '0:15'])
             elif malformed and rng.random() < 0.12:
                 tok = rng.choice(BAD_TOKENS)
@@ -1166,8 +1174,8 @@ def run(ctx):
         'is modelled in binary64 (every operation = round_double of the exact result) and tied by exact equality of the doubles; '
         'the calendar theorems read the result as an exact rational (tolerance 1e-9 h in that reading only); overflow, subnormals '
         'and years outside 1678-2261 (pandas Timestamp range) are outside the model',
-        'a dropped TIME column and DATE columns inside the reader model (read_model) are not covered; translate_nmtran_time is '
-        'modelled separately (Time.v)',
+        'a dropped TIME column is not covered; DATE/DAT1-3 columns (dropped or kept) are inside reader_refines: they stay text and '
+        'keep TIME as text; the write/read cycle is stated without DATE columns; translate_nmtran_time is modelled separately (Time.v)',
         'float printing of DataFrame.to_csv (repr of a double) is an engine: the write/read cycle is an oracle, its theorem '
         'is stated for any printer whose output float() reads back exactly',
     ]
